@@ -708,6 +708,8 @@ def run_pre_process(scenario):
     for i, payload in enumerate(results):
         form, trace = full_form(payload)
         entry = {"digest": digest(form), "id": _payload_id(payload)}
+        # pre-processing numbers the records by their position in the batch before anything else happens
+        entry["record_index"] = getattr(payload, "record_index", None)
         if trace:
             entry["pid"], entry["t0"], entry["t1"] = int(trace[0]), float(trace[1]), float(trace[2])
         if i < len(seq_results):
